@@ -222,4 +222,23 @@ PROPS = {
             "{% cycle name %} re-emission is not generated",
         ],
     },
+    "C13": {
+        "journal": True,
+        "confirm_tries": 2,
+        "quick": [
+            {"test": "TestC13Bind", "checks": 20000, "shards": 4},
+            {"test": "TestC13Recursion", "checks": 800, "shards": 8},
+            {"test": "TestC13RecursionEnum", "kind": "enum", "shards": 4, "env": {"VERIF_C13_ENUM_N": "2"}},
+        ],
+        "thorough": [
+            {"test": "TestC13Bind", "checks": 1600000, "shards": 8},
+            {"test": "TestC13Recursion", "checks": 32000, "shards": 16},
+            {"test": "TestC13RecursionEnum", "kind": "enum", "shards": 16, "env": {"VERIF_C13_ENUM_N": "3"}},
+        ],
+        "assumptions": [
+            "macro bodies of the three-form comparison reference only parameters, context names and co-imported macros (a helper file's non-imported macros are invisible by design)",
+            "macro results are not passed as arguments to other macros in C13.bind",
+            "a runaway recursion is recognised by the execution error; a worker that dies instead (stack overflow) is detected through the write-ahead journal",
+        ],
+    },
 }
